@@ -1901,9 +1901,16 @@ def apply_fault(doc, f):
     return d
 
 
+STRUCTURAL_FAULTS = ['second_map_components', 'second_map_components_first', 'second_map_components_last',
+                     'second_map_components_other_pair', 'second_map_components_other_pair_last',
+                     'connection_without_map_variables', 'empty_connection', 'group_without_relationship_ref',
+                     'group_without_component_ref', 'component_in_component', 'variable_outside_component',
+                     'unit_outside_units', 'units_in_units', 'base_units_with_children',
+                     'map_variables_without_variable_2', 'map_components_without_component_2', 'component_without_name',
+                     'model_without_name', 'variable_ref_outside_reaction', 'role_without_role', 'connection_in_component']
 SCHEMA_FAULTS = ['no_units_attribute', 'unknown_element', 'both_interfaces_in', 'initial_value_on_in',
                  'map_variables_outside_connection', 'no_map_components', 'bad_identifier', 'empty_units',
-                 'not_xml']
+                 'not_xml'] + STRUCTURAL_FAULTS
 
 
 def schema_fault_text(doc, kind):
@@ -1932,6 +1939,72 @@ def schema_fault_text(doc, kind):
         return text.replace('</model>', '  <units name="emptyu"></units>\n</model>')
     if kind == 'not_xml':
         return text.replace('</model>', '<model>')
+    # ---- structural violations: cardinality / order / placement of children, which the Python code does not check
+    m = re.search(r'<map_components component_1="([^"]+)" component_2="([^"]+)"/>\n', text)
+    conn = re.search(r'  <connection>\n.*?  </connection>\n', text, re.S)
+    comps = re.findall(r'<component name="([^"]+)"', text)
+    if kind.startswith('second_map_components'):
+        if m is None or conn is None:
+            return None
+        if 'other_pair' in kind:
+            others = [c for c in comps if c not in (m.group(1), m.group(2))]
+            if not others:
+                return None
+            extra = '    <map_components component_1="%s" component_2="%s"/>\n' % (m.group(1), others[0])
+        else:
+            extra = '    ' + m.group(0).strip() + '\n'
+        block = conn.group(0)
+        if kind.endswith('_last'):
+            new = block.replace('  </connection>\n', extra + '  </connection>\n')
+        elif kind.endswith('_first'):
+            new = block.replace('  <connection>\n', '  <connection>\n' + extra, 1)
+        else:
+            new = block.replace(m.group(0), m.group(0) + extra, 1) if m.group(0) in block else None
+        return None if new is None else text.replace(block, new, 1)
+    if kind == 'connection_without_map_variables':
+        if conn is None:
+            return None
+        return text.replace(conn.group(0), re.sub(r'    <map_variables [^>]*/>\n', '', conn.group(0)), 1)
+    if kind == 'empty_connection':
+        return text.replace('</model>', '  <connection/>\n</model>')
+    if kind == 'group_without_relationship_ref':
+        if '<group>' not in text:
+            return None
+        g = re.search(r'  <group>\n.*?  </group>\n', text, re.S).group(0)
+        return text.replace(g, re.sub(r'    <relationship_ref [^>]*/>\n', '', g), 1)
+    if kind == 'group_without_component_ref':
+        return text.replace('</model>', '  <group><relationship_ref relationship="encapsulation"/></group>\n</model>')
+    if kind == 'component_in_component':
+        return text.replace('  </component>\n', '    <component name="inner_c"/>\n  </component>\n', 1)
+    if kind == 'variable_outside_component':
+        return text.replace('</model>', '  <variable name="stray" units="dimensionless"/>\n</model>')
+    if kind == 'unit_outside_units':
+        return text.replace('</model>', '  <unit units="second"/>\n</model>')
+    if kind == 'units_in_units':
+        return text.replace('</model>', '  <units name="outer_u"><units name="inner_u2"><unit units="second"/></units></units>\n</model>')
+    if kind == 'base_units_with_children':
+        return text.replace('</model>', '  <units name="bu" base_units="yes"><unit units="second"/></units>\n</model>')
+    if kind == 'map_variables_without_variable_2':
+        if '<map_variables' not in text:
+            return None
+        return re.sub(r'(<map_variables variable_1="[^"]+") variable_2="[^"]+"', r'\1', text, count=1)
+    if kind == 'map_components_without_component_2':
+        if m is None:
+            return None
+        return text.replace(m.group(0), '<map_components component_1="%s"/>\n' % m.group(1), 1)
+    if kind == 'component_without_name':
+        return re.sub(r'<component name="[^"]+"', '<component', text, count=1)
+    if kind == 'model_without_name':
+        return text.replace('<model name="m"', '<model', 1)
+    if kind == 'variable_ref_outside_reaction':
+        return text.replace('  </component>\n', '    <variable_ref variable="x"/>\n  </component>\n', 1)
+    if kind == 'role_without_role':
+        return text.replace('  </component>\n', '    <reaction><variable_ref variable="x"><role/></variable_ref></reaction>\n'
+                            '  </component>\n', 1)
+    if kind == 'connection_in_component':
+        if conn is None:
+            return None
+        return text.replace('  </component>\n', conn.group(0) + '  </component>\n', 1)
     raise ValueError(kind)
 
 
